@@ -12,4 +12,10 @@ def run(ctx):
     feats, fails = rl.run_mode(ctx, "c10", ctx.pick(60, 800), "C10")
     if ctx.only is None and feats["invalid_block"] == 0:
         raise vlib.Infra("vacuous: no rejected block recorded")
+    # builder and admission gates (same trace spec): real Builder.BuildBlock / PreExecutor.PreExecute
+    _b = importlib.util.spec_from_file_location("c02", os.path.join(os.path.dirname(__file__), "C02.py"))
+    c02 = importlib.util.module_from_spec(_b)
+    _b.loader.exec_module(c02)
+    bfiles = c02.record_builds(ctx, ctx.pick(25, 300))
+    fails += rl.ch.validate(ctx, bfiles, "gates")
     vlib.report_failures(ctx, fails, rl.ch.describe)
